@@ -1,7 +1,8 @@
 -------------------------------- MODULE TileTrace --------------------------------
 EXTENDS TileQuery, TraceIO
-Verdict(e) == IF e.outcome # "ok" THEN "reject:raised_" \o e.outcome
-              ELSE LET v == IF e.op = "query" THEN QueryV(e) ELSE GraphV(e) IN IF v # "ok" THEN "reject:" \o v ELSE "ok"
+Verdict(e) == IF e.outcome = "skip_destination_outside_the_valid_area_of_its_crs" THEN "skip"
+              ELSE IF e.outcome # "ok" THEN "reject:raised_" \o e.outcome
+              ELSE LET v == IF e.op = "query" THEN QueryV(e) ELSE IF e.op = "rpair" THEN RGraphV(e) ELSE GraphV(e) IN IF v # "ok" THEN "reject:" \o v ELSE "ok"
 VARIABLE l
 Init == l = 1
 Next == l <= NEvents /\ PrintT(<<"V", l, Verdict(Events[l])>>) /\ l' = l + 1
